@@ -553,15 +553,40 @@ class State(object):
     # ---- identity for merging
     def pre_sig(self):
         """Cheap necessary condition for equal mem_sig."""
-        return (self.trace, self.stack, len(self.objs), tuple(len(f) for f in self.frames), len(self.tags))
+        n = 0
+        for o in self.objs.values():
+            if o.kind != 'str' and o.kind != 'global':
+                n += 1
+        return (self.trace, self.stack, n, tuple(len(f) for f in self.frames), len(self.tags))
 
-    def mem_sig(self):
+    def rewrite_canon(self):
+        """Replace every cell by its canonical form (needed before equalities are joined away)."""
+        for o in self.objs.values():
+            for k, (w, t) in list(o.cells.items()):
+                if t[0] != 'c':
+                    c = self.canon(t)
+                    if c is not t:
+                        o.cells[k] = (w, c)
+
+    def mem_sig(self, raw=False, canon_state=None):
         items = []
-        canon = self.canon
+        canon = (lambda t: t) if raw else (canon_state or self).canon
         for oid, o in self.objs.items():
             if o.kind == 'str' or (o.kind == 'global' and (o.ro or (not o.cells and o.default == 'unknown'))):
                 continue
-            cs = frozenset((k, w, t if t[0] == 'c' else canon(t)) for k, (w, t) in o.cells.items())
+            if raw:
+                cs = frozenset((k, w, t) for k, (w, t) in o.cells.items())
+            else:
+                # granularity-independent: one entry per byte of the canonical value
+                ent = []
+                for k, (w, t) in o.cells.items():
+                    ct = t if t[0] == 'c' else canon(t)
+                    if w == 1:
+                        ent.append((k, ct if ct[0] != 'c' else C(ct[1] & 0xFF)))
+                    else:
+                        for i in range(w):
+                            ent.append(((k[0], k[1] + i), mk_byte(ct, i)))
+                cs = frozenset(ent)
             items.append((oid, o.live, o.default, o.zeroed_n, cs))
         fr = tuple(frozenset(f.items()) for f in self.frames)
         return (frozenset(items), fr, self.trace, self.stack, frozenset(self.tags.items()))
